@@ -340,11 +340,12 @@ class FuncGen:
             return
         if name.startswith('llvm.'):
             raise IRError('intrinsic not supported: ' + name)
-        if name in ('malloc', 'calloc'):
+        if name in ('malloc', 'calloc', 'memalign', 'aligned_alloc'):
             s = tr.site_by_key[(self.fname, res)] if res else None
             if s is None:
                 raise IRError('allocation result unused')
-            size = cargs[0] if name == 'malloc' else '(%s * %s)' % (cargs[0], cargs[1])
+            # memalign/aligned_alloc(alignment, size): an uninitialised allocation like malloc (VM objects are 2^20-aligned)
+            size = cargs[0] if name == 'malloc' else cargs[1] if name in ('memalign', 'aligned_alloc') else '(%s * %s)' % (cargs[0], cargs[1])
             self.emit('%sVM_MALLOC(%d, %s, %d);' % (d, s['id'], size, 1 if name == 'calloc' else 0))
             return
         if name == 'free' and tr.spec.get('no_free') and tr.mode == 'cbmc' and self.fname != 'vm_init':
